@@ -2757,3 +2757,10 @@ package engine
 //@   checks only post
 //@   bind dok, derr = (*Promise).Force#1
 //@   ensures[an-error-or-a-cancellation-of-a-directive-is-reported] called(derr) && derr != nil ==> result == derr
+
+//@ ---------------------------------------------------------------- tables filled by package initialisation (C07, C18)
+//@ -- keys are atom *names* (ISO 13211-1 9.1, 9.3, 9.4 for the evaluable functors; 6.3.4 for the specifiers); a backslash is written \\
+
+//@ table unaryFunctors C07 -=neg abs=abs sign=sign float_integer_part=floatIntegerPart float_fractional_part=floatFractionalPart float=asFloat floor=floor truncate=truncate round=round ceiling=ceiling sin=sin cos=cos atan=atan exp=exp log=log sqrt=sqrt \\=bitwiseComplement +=pos asin=asin acos=acos tan=tan
+//@ table binaryFunctors C07 +=add -=sub *=mul //=intDiv /=div rem=rem mod=mod **=power >>=bitwiseRightShift <<=bitwiseLeftShift /\\=bitwiseAnd \\/=bitwiseOr div=intFloorDiv max=max min=min ^=integerPower atan2=atan2 xor=xor
+//@ table operatorSpecifiers C18 fx=operatorSpecifierFX fy=operatorSpecifierFY xf=operatorSpecifierXF yf=operatorSpecifierYF xfx=operatorSpecifierXFX xfy=operatorSpecifierXFY yfx=operatorSpecifierYFX
